@@ -558,5 +558,5 @@ func c06OptionIndependence(c *Ctx, p *core.Prog, astPath string) {
 		}
 	}
 	r.OK("option-independence", "scan", "-", sprintf("%d option-dependent branches in Format code examined", n))
-	r.Floor("option-independence", n, 10, "option-dependent branches")
+	r.Floor("option-independence", n, 5, "option-dependent branches")
 }
